@@ -16,7 +16,9 @@ vec_matrix.rs / matrix.rs (Model/PrimeResidue.lean, Model/LinAlg.lean).
     (cols − rank columns, A·N = 0, linearly independent), sem_instances;
   modular solver: rational_reconstruction_invariant, rational_reconstruction_no_panic,
     rational_reconstruction_unique, lifting_invariant, modular_solver_exact (conditional on
-    the step count: `(|N|+D)² < p^steps`).
+    the step count: `(|N|+D)² < p^steps`);
+  client: placement_barycentric (pgraphs.rs: the positions satisfy the barycentric
+    equations, conditional on non-singularity mod p and the step bound).
 Not proved: that the floating-point step count of the code meets the hypothesis of
   modular_solver_exact; anything about f64; machine-integer overflow (theorems are about
   idealised integers, known finding F-C18-overflow).
@@ -29,6 +31,7 @@ import DSymVerif.Proofs.Routines
 import DSymVerif.Proofs.RatRec
 import DSymVerif.Proofs.Instances
 import DSymVerif.Proofs.Lifting
+import DSymVerif.Proofs.PGraph
 
 namespace DSymVerif.C18
 
@@ -555,6 +558,44 @@ theorem modular_solver_exact (p : ℕ) [Fact p.Prime] (hpm : (p : ℤ) ≤ PRC.m
       ∀ (i j : Nat) (hi : i < n) (hj : j < k), QWF ((X[i])[j]) ∧
         valQ ((X[i])[j]) = Xq ⟨i, hi⟩ ⟨j, hj⟩ :=
   modSolve_exact hpm steps a b hns Xq hX N D hD hND hbound
+
+/-! ### client: barycentric placement of periodic graphs (pgraphs.rs) -/
+
+/-- `placement_barycentric`: let `a·x = t` be the system `barycentric_placement` assembles for
+    the periodic graph `g` (model `PG.assemble`; `n` vertices in sorted order, dimension `d`).
+    If `a` is non-singular modulo the solver's prime `p` (for a connected graph `a` is the
+    Laplacian with the first vertex pinned; that connectedness implies this is not proved
+    here) and the exact solution's entries `N/D` satisfy the step bound
+    `(|N| + D)² < p^steps` (hypothesis of `modular_solver_exact`), then `placement` returns the
+    positions `P` (vertex `verts[i]` ↦ row `i`) with `pos(first vertex) = 0` and, for every
+    other vertex `v = verts[i]` and coordinate `k`, the barycentric equation
+    `Σ_{ngb ∈ incidences(v)} (pos(ngb.tail) + ngb.shift − pos(v)) = 0`
+    (the equation at the first vertex is the negated sum of the others). -/
+theorem placement_barycentric (p : ℕ) [Fact p.Prime] (hpm : (p : ℤ) ≤ PRC.maxP) (steps : Nat)
+    (g : PG.Graph) (a : Mat Int g.vertices.length g.vertices.length)
+    (t : Mat Int g.vertices.length g.dim)
+    (hasm : PG.assemble g g.vertices.length g.dim = .ok (a, t))
+    (hns : ¬ (p : ℤ) ∣ (toMatrixZ a).det)
+    (hbound : ∀ i j, (|(PG.exactSolution a t i j).num| + ((PG.exactSolution a t i j).den : ℤ)) *
+      (|(PG.exactSolution a t i j).num| + ((PG.exactSolution a t i j).den : ℤ)) < (p : ℤ) ^ steps) :
+    ∃ P : Mat Q g.vertices.length g.dim,
+      PG.placement p steps g = .ok (g.vertices.zip P.toLists) ∧
+      (∀ (i k : Nat) (hi : i < g.vertices.length) (hk : k < g.dim), QWF ((P[i])[k])) ∧
+      ∃ _ : 0 < g.vertices.length,
+        (∀ (k : Nat) (hk : k < g.dim), valQ ((P[0])[k]) = 0) ∧
+        ∀ (i : Nat) (hi : i < g.vertices.length), 1 ≤ i → ∃ v, g.vertices[i]? = some v ∧
+          ∀ (k : Nat) (hk : k < g.dim),
+            ((g.incidences v).map fun ngb =>
+              (if h : PG.idxD g.vertices ngb.tail < g.vertices.length then
+                valQ ((P[PG.idxD g.vertices ngb.tail])[k]) else 0) +
+              ((ngb.shift.getD k 0 : Int) : ℚ) - valQ ((P[i])[k])).sum = 0 :=
+  PG.placement_barycentric_core hpm steps g a t hasm hns hbound
+
+/-- the second graph of the repository's own test (two vertices joined by four edges):
+    vertex 2 sits at the barycentre (-1/4, -1/4, -1/4) of its four neighbours `1 − s` -/
+example : ((PG.Graph.ofEdges [⟨1, 2, [0, 0, 0]⟩, ⟨1, 2, [1, 0, 0]⟩, ⟨1, 2, [0, 1, 0]⟩,
+    ⟨1, 2, [0, 0, 1]⟩]).bind fun g => PG.placement 3037000493 1 g) =
+    .ok [(1, [⟨0, 1⟩, ⟨0, 1⟩, ⟨0, 1⟩]), (2, [⟨-1, 4⟩, ⟨-1, 4⟩, ⟨-1, 4⟩])] := by decide +kernel
 
 example : (modSolve 3037000493 1 (#v[#v[2]] : Mat Int 1 1) (#v[#v[1]] : Mat Int 1 1)).bind
     (fun x => Outcome.ok x.toLists) = .ok [[⟨1, 2⟩]] := by decide +kernel
